@@ -689,6 +689,10 @@ pub fn run_free_c02(prop: &str, p: &Params, n: u64) -> Outcome {
                 out.ev.add("free_wakes_observed", wakes);
                 if pend > 0 {
                     out.ev.nontrivial(hash_of(&(s, ready, pend)));
+                    if out.ev.samples.is_empty() {
+                        out.ev.sample(json!({"free_running_round_seed": s, "flavour": if asyncfl {"async-lock"} else {"sync"},
+                            "polls_ready": ready, "polls_pending": pend, "wakes_observed": wakes}));
+                    }
                 }
             }
             Err((vp, what)) if vp == "STUCK" => {
